@@ -5196,24 +5196,35 @@ int32_t matrixSslEncodeClientHello(ssl_t *ssl, sslBuf_t *out,
     }
 
     addRenegotiationScsv = 0;
-#  ifdef ENABLE_SECURE_REHANDSHAKES
-    /* Initial CLIENT_HELLO will use the SCSV mechanism for greatest compat */
-    if (ssl->myVerifyDataLen == 0)
+    /* Store the ClientHello cipherlist: the suite selected by the server
+       is checked against it, and it is re-sent during possible
+       server-initiated renegotiations. */
+    if (cipherSpecs != ssl->tlsClientCipherSuites)
     {
-        cipherLen += 2; /* signalling cipher id 0x00FF */
-        addRenegotiationScsv = 1;
-        if (cipherSpecLen > 0)
+        psFree(ssl->tlsClientCipherSuites, ssl->hsPool);
+        ssl->tlsClientCipherSuites = NULL;
+        ssl->tlsClientCipherSuitesLen = 0;
+        if (cipherSpecLen > 0 && cipherSpecs != NULL && cipherSpecs[0] != 0)
         {
-            /* Store the initial ClientHello cipherlist for re-sending during
-               possible server-initiated renegotiations. */
             ssl->tlsClientCipherSuites = psMalloc(ssl->hsPool,
-                    2*cipherSpecLen);
+                    cipherSpecLen * sizeof(*ssl->tlsClientCipherSuites));
+            if (ssl->tlsClientCipherSuites == NULL)
+            {
+                return PS_MEM_FAIL;
+            }
             for (i = 0; i < cipherSpecLen; i++)
             {
                 ssl->tlsClientCipherSuites[i] = cipherSpecs[i];
             }
             ssl->tlsClientCipherSuitesLen = cipherSpecLen;
         }
+    }
+#  ifdef ENABLE_SECURE_REHANDSHAKES
+    /* Initial CLIENT_HELLO will use the SCSV mechanism for greatest compat */
+    if (ssl->myVerifyDataLen == 0)
+    {
+        cipherLen += 2; /* signalling cipher id 0x00FF */
+        addRenegotiationScsv = 1;
     }
 #  endif
     if (options->fallbackScsv)
